@@ -92,7 +92,7 @@ def model (f : List String) : String :=
   | [_tag, minsev, "TYPES"] => (match minsev.toNat? with | some m => typesStr m | none => "bad-op")
   | _ =>
     match parseCase f with
-    | some (cfg, ops) => traceStr (run cfg (fun _ => 0) ops)
+    | some (cfg, ops) => traceStr (runT cfg (fun _ => 0) ops)
     | none => "bad-op"
 
 def judge (f : List String) (ans : String) : String :=
@@ -107,7 +107,7 @@ def judge (f : List String) (ans : String) : String :=
   | _ =>
     match parseCase f with
     | some (cfg, ops) =>
-      let want := traceStr (Props.C05.specRun cfg (fun _ => 0) ops)
+      let want := traceStr (Props.C05.specRunT cfg (fun _ => 0) ops)
       let nst := (ops.filter fun o => match o with | .stmt .. => true | .overlap .. => true | _ => false).length
       let feat := "\tmin" ++ toString cfg.minSev ++ " stmts" ++ toString (min nst 6) ++
         (if want = "-" then " silent" else " emits") ++
@@ -117,6 +117,7 @@ def judge (f : List String) (ans : String) : String :=
         (if ((f.getD 4 "").splitOn "thrx:").length > 1 then " threshold-set-by-another-thread" else "") ++
         (if ((f.getD 4 "").splitOn "stx:").length > 1 then " statement-on-another-thread" else "") ++
         (if f.getD 2 "" = "8" ∨ f.getD 2 "" = "9" then " tag-aware-filter" else "") ++
+        (if ((f.getD 4 "").splitOn "L90").length > 1 then " callable-changes-threshold" else "") ++
         (if nst ≥ 1 then " nt" else "")
       if ans = want then "ok" ++ feat else "bad:" ++ ans ++ " want " ++ want ++ feat
     | none => "bad-op"
